@@ -4,10 +4,12 @@ package run
 import (
 	"context"
 	"fmt"
+	"sync/atomic"
 	"time"
 
 	"github.com/samber/ro"
 	"verifharness/internal/catalog"
+	"verifharness/internal/patience"
 	"verifharness/internal/quiesce"
 	"verifharness/internal/rec"
 	"verifharness/internal/src"
@@ -136,16 +138,23 @@ func (r *Result) Cleanup() {
 	}
 }
 
-// WaitEvents waits for an asynchronous pipeline without trusting the clock: it
-// returns as soon as the recorder holds at least `want` callbacks (want < 0:
-// until a terminal was seen); if that does not happen it keeps waiting until the
-// process is quiescent AND at least `floor` has elapsed — the catalogue's timers
-// are ≤ a few ms or ≥ 1 h, so after a floor of thousands of timer periods a
-// quiescent process will not deliver anything more (timers fire late, never
-// early: waiting longer only makes the verdict safer). Returns whether the
-// expected callbacks arrived.
+const shortFloor = 120 * time.Millisecond
+
+// WaitEvents waits until the recorder holds want callbacks (want < 0: a terminal one), or - the
+// count not arriving - until the floor has passed and the process is quiescent, or the budget is spent.
+// Unless the long mode is on (package patience) a floor above 120 ms is shortened to that, guarded by
+// a sentinel timer, and the cut is noted for the driver.
 func WaitEvents(r *rec.Rec, want int, floor, budget time.Duration) bool {
 	start := time.Now()
+	short := !patience.Long() && floor > shortFloor
+	var fired atomic.Bool
+	if short {
+		floor = shortFloor
+		t := time.AfterFunc(floor, func() { fired.Store(true) })
+		defer t.Stop()
+	} else {
+		fired.Store(true)
+	}
 	reached := func() bool {
 		if want < 0 {
 			return r.Terminal() != rec.Next
@@ -159,8 +168,11 @@ func WaitEvents(r *rec.Rec, want int, floor, budget time.Duration) bool {
 			return true
 		}
 		el := time.Since(start)
-		if el > floor {
+		if el > floor && fired.Load() {
 			if _, ok := quiesce.Settle(20 * time.Millisecond); ok {
+				if short {
+					patience.NoteCut()
+				}
 				return reached()
 			}
 		}
